@@ -5,6 +5,7 @@ import (
 	"reflect"
 
 	structform "github.com/elastic/go-structform"
+	"github.com/elastic/go-structform/gotype"
 
 	"verif/harness/codec"
 	"verif/harness/gen"
@@ -200,4 +201,110 @@ func init() {
 		},
 		Suites: c10Suites,
 	})
+}
+
+// unfolder: targets built from the extended call and from its expansion are
+// deeply equal, the unfolder is left in the same state.
+func c10Unfolder(c *run.C) {
+	r := c.R
+	kinds := append(append([]val.Kind{}, gen.ExtArrayKinds...), gen.ExtObjectKinds...)
+	k := kinds[c.Idx%len(kinds)]
+	var streams []val.Stream
+	var t reflect.Type
+	mode := (c.Idx / len(kinds)) % 4
+	if mode == 0 {
+		// arbitrary context into interface{}
+		streams = c10Streams(r, c.Idx)
+		t = gen.TIface
+	} else {
+		ev := gen.ExtEvent(r, k, []int{0, 1, -1, 30}[(c.Idx/(4*len(kinds)))%4], true, true)
+		et := val.ElemType(k)
+		// typed targets that can hold the payload
+		var elems []reflect.Type
+		switch et.Kind() {
+		case reflect.Bool, reflect.String:
+			elems = []reflect.Type{et, gen.TIface}
+		case reflect.Float32, reflect.Float64:
+			elems = []reflect.Type{reflect.TypeOf(float64(0)), gen.TIface, et}
+		case reflect.Int, reflect.Int8, reflect.Int16, reflect.Int32, reflect.Int64:
+			elems = []reflect.Type{reflect.TypeOf(int64(0)), et, gen.TIface, reflect.TypeOf(float64(0))}
+		default:
+			elems = []reflect.Type{reflect.TypeOf(uint64(0)), et, gen.TIface}
+		}
+		e := elems[r.Intn(len(elems))]
+		if k.IsExtArray() {
+			t = reflect.SliceOf(e)
+		} else {
+			t = reflect.MapOf(gen.TString, e)
+		}
+		switch mode {
+		case 1:
+			streams = []val.Stream{{ev}}
+		case 2:
+			// as a struct field, followed by another member
+			t = reflect.StructOf([]reflect.StructField{{Name: "X", Type: t}, {Name: "Y", Type: gen.TString}})
+			streams = []val.Stream{{{K: val.EObjStart, N: 2}, {K: val.EKeyRef, S: "x"}, ev, {K: val.EKey, S: "y"}, {K: val.EStringRef, S: "after"}, {K: val.EObjEnd}}}
+		default:
+			// as element of a slice, twice
+			t = reflect.SliceOf(t)
+			streams = []val.Stream{{{K: val.EArrStart, N: 2}, ev, ev, {K: val.EArrEnd}}}
+		}
+	}
+	c.Begin(map[string]interface{}{"type": t.String(), "streams": streams})
+	runOne := func(expand bool) (reflect.Value, error, []int, bool) {
+		tgt := reflect.New(t)
+		u, err := gotype.NewUnfolder(nil)
+		if err != nil {
+			return tgt, err, nil, true
+		}
+		var uerr error
+		ok := c.Guard(fmt.Sprintf("unfold.expand=%v", expand), func() {
+			for _, s := range streams[:1] {
+				if uerr = u.SetTarget(tgt.Interface()); uerr != nil {
+					return
+				}
+				if expand {
+					s = s.Expand(true)
+				}
+				if uerr = mon.Replay(s, u, mon.ReplayOpts{ScribbleRefs: true}); uerr != nil {
+					return
+				}
+			}
+		})
+		return tgt, uerr, hook.Depths(u), ok
+	}
+	ta, ea, da, ok := runOne(false)
+	if !ok {
+		return
+	}
+	tb, eb, db, ok := runOne(true)
+	if !ok {
+		return
+	}
+	if (ea == nil) != (eb == nil) {
+		c.Violationf("mismatch", "unfolder:error-differs", "unfolder: extended call sequence returned %v, its expansion %v\ntype=%s\nstream=%s", ea, eb, t, streams[0])
+		return
+	}
+	if ea != nil {
+		c.Observe("unfolder_pairs_refused", 1)
+		return
+	}
+	if d := eqGoPlain(tb.Elem(), ta.Elem(), "direct", "$"); d != "" {
+		c.Violationf("mismatch", "unfolder:value-differs", "target built from the extended events differs from the target built from their expansion: %s\ntype=%s\nstream=%s\nextended=%s\nexpanded=%s", d, t, streams[0], valueString(ta.Elem()), valueString(tb.Elem()))
+		return
+	}
+	if hook.Enabled && !reflect.DeepEqual(da, db) {
+		c.Violationf("state", "unfolder:depths-differ", "unfolder is left in another state by the extended calls (%v) than by their expansion (%v)\ntype=%s\nstream=%s", da, db, t, streams[0])
+		return
+	}
+	c.Observe("unfolder_pairs", 1)
+	if mode != 0 {
+		c.Observe("unfolder_typed_pairs", 1)
+	}
+	c.Nontrivial(gen.Mix(101, gen.HashString(t.String()), gen.HashString(streams[0].String())))
+}
+
+func init() {
+	chk := run.Lookup("C10")
+	chk.Suites = append(chk.Suites, &run.Suite{Name: "unfolder", N: tierN(60000, 2000000), Case: c10Unfolder, Require: []string{"unfolder_pairs", "unfolder_typed_pairs"}})
 }
